@@ -441,11 +441,8 @@ func exec(line string) (res string) {
 	}
 	defer func() {
 		if e := recover(); e != nil {
-			if strings.Contains(fmt.Sprint(e), "internal error") {
-				res = "panic:internal"
-			} else {
-				res = "panic"
-			}
+			// one outcome for every panic: observables never depend on message text
+			res = "panic"
 		}
 	}()
 	tr := &tracker{}
